@@ -10,7 +10,8 @@ def run(pid, tier, seed):
               "activation map, BN record}; transfer_weights); TLC enumerates all models <= 2 layers x all dictionaries, "
               "the driver samples that space (and 3-layer models) on the real function; distinct = (model, dict)")
   chk.assumptions = ["quantizers are compared through str() of the quantizer the Q class itself builds from the string",
-                     "separable / recurrent / pooling layers are not in the alphabet yet"]
+                     "extended alphabet (Conv1D, separable, recurrent, pooling; forked topologies merged by Add / "
+                     "Concatenate): MC_ModelGraphX / Trace_ModelGraphX; Bidirectional and Conv2DTranspose are not covered"]
   mc = run_tlc("MC_ModelGraph", "MC_ModelGraph_" + tier, coverage=True)
   chk.add_mc("MC_ModelGraph_" + tier, mc, "frame conditions of the transcribed rewriting on all models x dictionaries")
   check_coverage(mc, ["Init", "Choose"], "MC_ModelGraph")
@@ -22,6 +23,20 @@ def run(pid, tier, seed):
       if cl == "conversion_raises":
         ident["exception"] = ev.get("exc_text", "")[:60]
       chk.violation(ident, ev)
+  mcx = run_tlc("MC_ModelGraphX", "MC_ModelGraphX", coverage=True)
+  chk.add_mc("MC_ModelGraphX", mcx, "frame conditions on the extended alphabet (Conv1D, separable, recurrent, pooling)")
+  check_coverage(mcx, ["Init", "Choose"], "MC_ModelGraphX")
+  rejx, errx, evx = sharded_events(chk, "drive_mquantx.py", "-", "Trace_ModelGraphX", tier, seed, "mquantx")
+  for ev, clauses in rejx:
+    for cl in clauses:
+      ident = {"clause": cl, "alphabet": "extended"}
+      if cl in ("wrong_layer_class", "wrong_weight_quantizers", "wrong_activation"):
+        want_kinds = sorted({l["kind"] for l, r in zip(ev["model"], ev["res"])})
+        ident["kinds"] = ",".join(sorted({l["kind"] for l in ev["model"]}))
+      if cl == "conversion_raises":
+        ident["exception"] = ev.get("exc_text", "")[:60]
+      chk.violation(ident, ev)
+  events = events + evx
   for ev in events:
     chk.key(json.dumps([ev["model"], ev["dict"], ev["transfer"]], sort_keys=True))
   chk.sample({k: events[0][k] for k in ("model", "dict", "res")})
